@@ -32,8 +32,9 @@ def r1(R, repo):
   dv, ov = [astu.src(e) for e in unp[0].targets[0].elts]
   call = [x for x in astu.func_calls(inner) if astu.call_name(x) == 'jax.vjp']
   R.require(len(call) == 1, 'vjp.inner: jax.vjp call not found')
+  w = mod.func('vjp.inner.wrapper')
   key = key_of(inner, 'jax.vjp(wrapper, <first group>, *args, has_aux=True)')
-  evid.judge_call_args(R, repo, inner, call[0], ['wrapper', dv], key, (inner, call[0]), 'jax.vjp must differentiate the wrapper with respect to the first (selected) variable group and the arguments', vocab=(dv, ov))
+  evid.judge_call_args(R, repo, inner, call[0], [w.name, dv], key, (inner, call[0]), 'jax.vjp must differentiate the wrapper with respect to the first (selected) variable group and the arguments', vocab=(dv, ov))
   ha = astu.kwarg(call[0], 'has_aux')
   R.check(astu.is_const(ha, True), key + ' :: has_aux', (inner, call[0]), 'jax.vjp must be called with has_aux=True (the repacked variables travel as aux output)', evidence=ha is None or isinstance(ha, ast.Constant))
   w = mod.func('vjp.inner.wrapper')
@@ -63,11 +64,11 @@ def r1(R, repo):
   evid.judge_call_args(R, repo, j, pk[0] if len(pk) == 1 else None, [None, '(target, variables)', '(variables,)', '(rngs,)'], key + ' :: pack', j, 'lift.jvp must lift (target, variables) in and (variables,) out')
   ji = mod.func('jvp.inner')
   jc = [x for x in astu.func_calls(ji) if astu.call_name(x) == 'jax.jvp']
-  evid.judge_call_args(R, repo, ji, jc[0] if len(jc) == 1 else None, ['wrapper', '(jvp_vars, args)', '(variable_tangents, tangents)'], key_of(ji, 'primals (vars, args) paired with tangents (variable_tangents, tangents)'), ji,
+  evid.judge_call_args(R, repo, ji, jc[0] if len(jc) == 1 else None, [mod.func('jvp.inner.wrapper').name, '(jvp_vars, args)', '(variable_tangents, tangents)'], key_of(ji, 'primals (vars, args) paired with tangents (variable_tangents, tangents)'), ji,
                        'jvp.inner must pair (jvp_vars, args) with (variable_tangents, tangents)', vocab=('other_vars',))
   vg = mod.func('value_and_grad.inner')
   c = [x for x in astu.func_calls(vg) if astu.call_name(x) == 'jax.vjp']
-  R.judge(len(c) == 1 and len(c[0].args) >= 2, len(c) == 1 and astu.src(c[0].args[0]) == 'wrapper' and isinstance(c[0].args[1], ast.Starred) and len(c[0].args) == 2, key_of(vg, 'only the arguments are differentiated'), vg, 'value_and_grad must differentiate with respect to the arguments only (variables are closed over)')
+  R.judge(len(c) == 1 and len(c[0].args) >= 2, len(c) == 1 and astu.src(c[0].args[0]) == mod.func('value_and_grad.inner.wrapper').name and isinstance(c[0].args[1], ast.Starred) and len(c[0].args) == 2, key_of(vg, 'only the arguments are differentiated'), vg, 'value_and_grad must differentiate with respect to the arguments only (variables are closed over)')
 
 
 @rule('C07.R2', 'K4', 4, 'aux output and repacked variables travel together and are destructured in the same layout')
